@@ -29,7 +29,8 @@ EXPLANATION = (
     "exhaustive over these patterns. After every run the module-level default_options, net.user_pf_options and the "
     "kwargs dictionary are compared with pristine copies (no mutation). The docstring bullets of init_options are "
     "compared with default_options, and every option name read through get_net_option(s)/options[...] in the package "
-    "must have a default.")
+    "must have a default. (R14.7) every call site of init_options in the package hands its own **kwargs over unchanged, so an "
+    "option given in the call -- including the value None and unknown options -- reaches the merge.")
 ASSUMPTIONS = ["copy.deepcopy, dict displays with ** and dict methods have their Python semantics",
                "get_fluid(net).name does not depend on the options"]
 TECHNIQUE = "exhaustive abstract interpretation of the option merge over provenance tokens, compared with an executable model of the documentation; writer/reader table agreement"
